@@ -15,7 +15,7 @@
    policy documents are still as the constructor validated them).
    Crash-freedom of the third-party decoders on arbitrary bytes is NOT a theorem: it is
    explored by the harness (evidence keys "exploration_..."). *)
-From NV Require Import Base Regex Generated C12_Model C12_Proofs.
+From NV Require Import Base Regex Generated C12_Model C12_Proofs C12_Audit.
 
 (* every entry point returns normally: no dereference of an absent value is reached, and
    UserMetadata() panics on none of the outcomes handed back *)
@@ -177,3 +177,145 @@ Example C12_example :
   let i := i_base ENVerify (v_strict (PMPlugin (Meta true [CapTI; CapRev]))) VLib sc_good in
   wf i = true /\ exists o, model i = ORet true None [Some o] None /\ oc_err o = None.
 Proof. exact wf_example. Qed.
+
+(* ======== added by the theorem audit (docs/audit/C12.md) ======== *)
+
+(* consistency needs NO input contract at the Verifier interface: whatever the injected
+   components do, a call of verifier.Verify / VerifyBlob that returns at all returns a
+   consistent (outcome, error) pair (the contracts [wf] only exclude the panics) *)
+Theorem C12_consistent_unconditional : forall i f l outs err,
+  i_entry i = EVerify \/ i_entry i = EVerifyBlob ->
+  model i = ORet f l outs err ->
+  (err = None <-> exists oc, outs = [Some oc] /\ oc_err oc = None) /\
+  (forall e, err = Some e -> policy_selected i = true ->
+     exists oc, outs = [Some oc] /\ oc_err oc = Some e /\ oc_same oc = true) /\
+  (err = None -> exists oc, outs = [Some oc] /\ oc_same oc = true /\ oc_level oc <> None).
+Proof. exact consistent_verifier_any. Qed.
+Print Assumptions C12_consistent_unconditional.
+
+(* notation.Verify / VerifyBlob: the only contract consistency needs is the one on a
+   caller-supplied Verifier (no error => an error-free outcome) *)
+Theorem C12_consistent_notation_unconditional : forall i f l outs err,
+  impl_wf (i_impl i) = true -> i_entry i = ENVerify \/ i_entry i = ENVerifyBlob ->
+  model i = ORet f l outs err ->
+  (err = None <-> exists oc, outs = [Some oc] /\ oc_err oc = None) /\
+  (err <> None -> outs = [] /\ f = false).
+Proof. exact consistent_notation_any. Qed.
+Print Assumptions C12_consistent_notation_unconditional.
+
+(* ... and that contract is needed: an inconsistent custom verifier is handed through *)
+Theorem C12_custom_contract_needed :
+  let i := mk_input ENVerifyBlob false (mk_v None None PMNil) (VCustom (Some c_incons) false)
+                    sc_good n_one b_good CCNone in
+  impl_wf (i_impl i) = false /\
+  exists o, model i = ORet true None [Some o] None /\ oc_err o = Some XOther.
+Proof. exact custom_inconsistent_needed. Qed.
+Print Assumptions C12_custom_contract_needed.
+
+(* a caller-supplied verifier answering (nil, nil) makes notation.Verify return a nil
+   outcome pointer: the contract of C12_no_nil_outcomes cannot be dropped *)
+Theorem C12_no_nil_outcomes_contract_needed :
+  model (i_base ENVerify (v_strict PMNil) (VCustom None false) sc_good) = ORet true None [None] None.
+Proof. exact custom_nil_nil_verify. Qed.
+Print Assumptions C12_no_nil_outcomes_contract_needed.
+
+(* The clause "a verification failure after policy selection always comes with an outcome
+   whose error is set" does NOT hold for notation.Verify / notation.VerifyBlob: with a
+   statement selected (strict) and the single signature failing, both return the error and
+   NO outcome, while verifier.Verify on the same signature returns the outcome with the error.
+   (The functions are documented to return "the successful signature verification outcome";
+   witnesses replayed on the real code: harness family "refuted".) *)
+Theorem C12_failure_outcome_notation_refuted :
+  (wf i_nverify_fail = true /\ sel_level i_nverify_fail = Some LStrict /\
+   model i_nverify_fail = ORet false None [] (Some XFailed)) /\
+  (wf i_nverify_blob_fail = true /\ sel_level i_nverify_blob_fail = Some LStrict /\
+   model i_nverify_blob_fail = ORet false None [] (Some XOther)) /\
+  (exists o, model (i_base EVerify (v_strict PMNil) VLib sc_badsig) = ORet false None [Some o] (Some (XResult TInt)) /\
+             oc_err o = Some (XResult TInt)).
+Proof. exact failure_outcome_notation_refuted. Qed.
+Print Assumptions C12_failure_outcome_notation_refuted.
+
+(* no runaway work in notation.Verify: signatures listed beyond MaxSignatureAttempts cannot
+   influence the result (they are neither fetched nor verified), however many a registry lists *)
+Theorem C12_attempts_bounded : forall impl v n, nverify impl v n = nverify impl v (n_trunc n).
+Proof. exact attempts_bounded. Qed.
+Print Assumptions C12_attempts_bounded.
+
+(* a missing plugin manager, at the entry points: a signature that demands a plugin is
+   inconclusive under every non-skip level (named or custom), with the outcome present ... *)
+Theorem C12_nil_plugin_manager_entry : forall v sc l,
+  v_pm v = PMNil -> is_skip l = false ->
+  s_sig sc = SigOK -> s_pattr sc = PName -> s_nonstr_crit sc = false -> s_minver_bad sc = false ->
+  let o := out_of (Some XInconclusive) true l [(TInt, false)] sc in
+  (v_oci v = Some (SelLevel l) -> verify_oci v sc = ORet false None [Some o] (Some XInconclusive)) /\
+  (v_blob v = Some (SelLevel l) -> verify_blob v sc = ORet false None [Some o] (Some XInconclusive)).
+Proof. exact nil_pm_entry. Qed.
+Print Assumptions C12_nil_plugin_manager_entry.
+
+(* ... and no plugin is ever consulted: what a plugin would answer (even the contract-breaking
+   (nil, nil)) is irrelevant, for every signature and level *)
+Theorem C12_nil_plugin_manager_no_plugin : forall l sc r,
+  process_signature l PMNil (set_presp sc r) = process_signature l PMNil sc.
+Proof. exact nil_pm_plugin_irrelevant. Qed.
+Print Assumptions C12_nil_plugin_manager_no_plugin.
+
+Theorem C12_nil_plugin_manager_no_panic : forall l sc,
+  s_rev sc <> RevBadShape -> process_signature l PMNil sc <> PSPanic.
+Proof. exact nil_pm_no_panic. Qed.
+Print Assumptions C12_nil_plugin_manager_no_panic.
+
+(* ---------- non-vacuity: the hypotheses of the theorems above are met by concrete inputs ---------- *)
+(* C12_consistent, first and third part; C12_outcome_levels *)
+Example C12_example_verifier_ok :
+  let i := i_base EVerify (v_strict PMNil) VLib sc_good in
+  wf i = true /\ policy_selected i = true /\ sel_level i = Some LStrict /\
+  exists o, model i = ORet false None [Some o] None /\ oc_err o = None /\ oc_level o = Some NStrict.
+Proof. exact ex_verifier_ok. Qed.
+(* C12_consistent, second part: an error after policy selection *)
+Example C12_example_verifier_failure_after_selection :
+  let i := i_base EVerifyBlob (v_strict PMNil) VLib sc_badsig in
+  wf i = true /\ policy_selected i = true /\
+  exists o, model i = ORet false None [Some o] (Some (XResult TInt)) /\ oc_err o = Some (XResult TInt) /\ oc_same o = true.
+Proof. exact ex_verifier_fail_selected. Qed.
+(* ... and an error before it (no statement applies): no outcome *)
+Example C12_example_verifier_failure_before_selection :
+  let i := i_base EVerify (v_none PMNil) VLib sc_good in
+  wf i = true /\ policy_selected i = false /\ model i = ORet false None [] (Some XNoPolicy).
+Proof. exact ex_verifier_fail_unselected. Qed.
+(* C12_consistent_notation *)
+Example C12_example_notation_blob_ok :
+  let i := i_base ENVerifyBlob (v_strict PMNil) VLib sc_good in
+  wf i = true /\ exists o, model i = ORet true None [Some o] None /\ oc_err o = None.
+Proof. exact ex_notation_blob_ok. Qed.
+(* C12_skip_usable_*, C12_consistent_skip_verify *)
+Example C12_example_skip :
+  let n := n_one in
+  v_oci v_skip = Some (SelLevel LSkip) /\ v_blob v_skip = Some (SelLevel LSkip) /\
+  n_repo_nil n = false /\ (0 < n_max n)%Z /\
+  b_reader_nil b_good = false /\ s_sig sc_good <> SigEmpty /\ b_ctype_bad b_good = false /\ b_stype_bad b_good = false /\
+  sel_wf (v_oci v_skip) = true /\ skip_verify v_skip = ORet true (Some NSkip) [] None.
+Proof. exact ex_skip. Qed.
+(* C12_wrong_kind_* *)
+Example C12_example_wrong_kind :
+  v_oci v_blob_only = None /\ v_blob v_oci_only = None /\
+  model (i_base EVerify v_blob_only VLib sc_good) = ORet false None [] (Some XNil) /\
+  model (i_base ENVerify v_blob_only VLib sc_good) = ORet false None [] (Some XNil) /\
+  model (i_base EVerifyBlob v_oci_only VLib sc_good) = ORet false None [] (Some XNil) /\
+  model (i_base ENVerifyBlob v_oci_only VLib sc_good) = ORet false None [] (Some XNil).
+Proof. exact ex_wrong_kind. Qed.
+(* C12_nil_plugin_manager*: a plugin-demanding signature, its plugin answer even breaking the contract *)
+Example C12_example_nil_plugin_manager :
+  let sc := sc_plugin PRNil in
+  s_sig sc = SigOK /\ s_pattr sc = PName /\ s_nonstr_crit sc = false /\ s_minver_bad sc = false /\
+  sc_wf sc = false /\
+  exists o, model (i_base EVerify (v_strict PMNil) VLib sc) = ORet false None [Some o] (Some XInconclusive) /\
+            oc_err o = Some XInconclusive.
+Proof. exact ex_nil_pm. Qed.
+(* C12_attempts_bounded: a good signature behind the limit is not reached, within it it is *)
+Example C12_example_attempts :
+  let good_late := mk_nreq false 2 RefOK false false false [Sig sc_badsig; Sig sc_badsig; Sig sc_good] in
+  let good_in_time := mk_nreq false 3 RefOK false false false [Sig sc_badsig; Sig sc_badsig; Sig sc_good] in
+  nverify VLib (v_strict PMNil) good_late = ORet false None [] (Some XFailed) /\
+  n_items (n_trunc good_late) = [Sig sc_badsig; Sig sc_badsig] /\
+  exists o, nverify VLib (v_strict PMNil) good_in_time = ORet true None [Some o] None.
+Proof. exact ex_attempts. Qed.
